@@ -11,6 +11,9 @@ CHECKS = {
  "C02": dict(cat="fault_enumeration", tech="deterministic simulation with a Byzantine prover (single-cell and public-input faults), differential oracle against the constraint checker", ref="DESIGN.md 4/C02",
    text="The pipeline of C01 with a Byzantine prover: per generated circuit the key is generated once and a list of plans is delivered - no edit, one edited advice cell (sites walked in thorough mode, sampled in quick), one edited public input - to the real prover+verifier and to MockProver; the two verdicts must coincide and every constraint class must be seen rejected by the real verifier.",
    note="Single-cell, non-propagated edits only; the generated family stands for 'all circuits'; a prover that errors or panics on a bad assignment counts as rejection."),
+ "C16": dict(cat="fault_enumeration", tech="deterministic simulation with storage/channel faults (truncation at every byte, all 256 values of every header byte, bit flips, splices, appended and random bytes, short reads, EINTR) on every verifier-facing decoder, in rlimited child processes under a counting allocator", ref="DESIGN.md 4/C16",
+   text="Every verifier-facing decoder (MidnightVK, ZkStdLibArch, proofs VerifyingKey, verifier parameters, IR programs as JSON and bincode, proof bytes) is fed corrupted encodings; the outcome must be Ok or Err - never a panic, abort, stack overflow, hang or a single allocation above 16 MiB + 64 x input - every key that decodes must then verify proofs without panicking, and checked formats must re-encode to the bytes they consumed with all points on the curve (in the subgroup for compressed points). Truncation points and header bytes are enumerated, body corruption is sampled.",
+   note="Fixtures: a Poseidon standard-library relation, an arithmetic relation, one generated circuit, a 10-instruction IR program; proving keys and full parameter sets are exercised and reported only (counters in the evidence); RawBytesUnchecked excluded as the property states."),
  "C17": dict(cat="exploration", tech="deterministic simulation: scheduler (pool size, task order, fresh OS threads) x storage faults (short/interrupted I/O, crash = durable prefix) x restart epochs", ref="DESIGN.md 4/C17",
    text="Key generation is repeated under different simulated pools and task orders on fresh OS threads and must give byte-identical verifying keys; vk, pk and params go through write / restart / read epochs over a fault-injecting disk (short writes and reads, EINTR, crash mid-write) in every compatible format pair and must re-serialise identically, keep their transcript identity and remain interchangeable (proofs from original and reloaded pk under original and reloaded vk); downsize and re-derived parameters are compared byte for byte.",
    note="HashMap iteration order cannot be seeded, so order dependence is detected with probability >= 1 - 2^-5 per run by repetition on fresh threads; GenCircuit family at k <= 8 (standard-library keys are covered through C16's decoders)."),
